@@ -1718,7 +1718,7 @@ MANIFEST_ENTRY = {
              '(truncation_safe_layout, full_file_layout_reads_back); every resolution code of the generated table is positive, a file declaring '
              'S, O, code R reads S*O*32768/R times the plain value (zygo_declared_factors) and quantisation is within one step for every code and '
              'positive factors (zygo_quant_error_any_resolution); re-saving a loaded map reproduces the counts in exact arithmetic '
-             '(zygo_requantise_exact); Code V WVL w with SSZ*w reads as WVL 1 (codev_unit_invariant).  TRANSLATED from the current source on every '
+             '(zygo_requantise_exact); Code V WVL w with SSZ*w reads as WVL 1 (codev_unit_invariant); every sequence of keyword groups of the generated reader table is accepted, in any order (codev_header_order_free); over the generated action table first / last select frame 0 / ib-1 (select_frame_first_last).  TRANSLATED from the current source on every '
              'run (18 items).  MODELLED AND COMPARED: instrument-style Zygo files (phase_res, scale, obliquity, header length, intensity block, frame '
              'action; phase + header + intensity frame bit for bit, every cut point), re-declared Code V headers (order, case, units, sentinel, "!" '
              'comment lines, layout), save/load/save histories of Interferogram (bytes of each generation against the model); every byte of written .dat files, all 158 decoded header fields, every token of written grid INT '
